@@ -337,6 +337,24 @@ def op_fop(w, ins):
     if k == 'invert':
         ok, v = call(w, lambda x: ~x, a.ref)
         take_result(w, m, ok, v, T.neg(a.tt), 'C01', what='~')
+    elif k in ('iand', 'ior', 'ixor'):
+        # augmented assignment on a name that aliases a handle the user still
+        # holds (`acc = init; acc |= step`): the result is a handle of its
+        # own, `init` goes on denoting what it denoted (I-den after the step)
+        def fn(x, y):
+            acc = x
+            if k == 'iand':
+                acc &= y
+            elif k == 'ior':
+                acc |= y
+            else:
+                acc ^= y
+            return acc
+        want = conn(T, {'iand': 'and', 'ior': 'or', 'ixor': 'xor'}[k], a.tt, b.tt)
+        ok, v = call(w, fn, a.ref, b.ref)
+        if ok and v is a.ref:
+            w.fail('handle_mutated', f'`acc {k[1:]}= v` on an alias returned the aliased handle itself', owner_tags(w, 'C08'))
+        take_result(w, m, ok, v, want, 'C01', what=f'Function {k}')
     elif k in ('and', 'or', 'implies', 'equiv'):
         fn = {'and': lambda x, y: x & y, 'or': lambda x, y: x | y,
               'implies': lambda x, y: x.implies(y),
@@ -476,6 +494,19 @@ def op_nest(w, ins):
             want = T.cof(want, k, 1 if v else 0)
         owner = 'C04'
         fn = lambda x, y, z: api.let(dd_, api.apply(s1, x, y))
+    elif kind == 'expr_tmp':
+        # the documented idiom: a result goes into the next formula through
+        # `str(Function)`, i.e. as `@n`; the temporary handle is gone before
+        # the formula is parsed, its node is still stored (nothing collects
+        # in between -- with dynamic reordering on that would be the
+        # caller's risk, so not then)
+        if g.api.configure()['reordering']:
+            return 'skip'
+        c2 = SYM2CONN[s2]
+        sym = {'and': '/\\', 'or': '\\/', 'xor': '^', 'implies': '=>', 'equiv': '<=>', 'diff': '-'}[c2]
+        want = conn(T, c2, tmp, c.tt)
+        owner = 'C05'
+        fn = lambda x, y, z: api.add_expr(f'{api.apply(s1, x, y)} {sym} {z}')
     elif kind == 'let_fn':
         ks = [k for k in dec]
         if not ks:
